@@ -57,6 +57,8 @@ def _canon_atom(e: ast.AST) -> Tuple[str, bool]:
         if isinstance(op, (ast.Eq, ast.NotEq)):
             if isinstance(r, ast.Constant) and r.value is None:
                 return f"{lt} is None", isinstance(op, ast.Eq)
+            if isinstance(l, ast.Constant) and l.value is None:
+                return f"{rt} is None", isinstance(op, ast.Eq)
             a, b = sorted([lt, rt])
             # len(x) == 0  <=>  not x   (sized containers)
             for x, y in ((l, r), (r, l)):
@@ -64,6 +66,9 @@ def _canon_atom(e: ast.AST) -> Tuple[str, bool]:
                     return f"bool({ast.unparse(x.args[0])})", not isinstance(op, ast.Eq)
             return f"{a} == {b}", isinstance(op, ast.Eq)
         if isinstance(op, (ast.Is, ast.IsNot)):
+            # identity is symmetric: a constant operand (None / True / False) goes to the right
+            if isinstance(l, ast.Constant) and not isinstance(r, ast.Constant):
+                lt, rt = rt, lt
             return f"{lt} is {rt}", isinstance(op, ast.Is)
         if isinstance(op, (ast.In, ast.NotIn)):
             return f"{lt} in {rt}", isinstance(op, ast.In)
